@@ -984,6 +984,38 @@ fn gen_liars() -> Vec<Item> {
     gens::length_liars().into_iter().map(|(label, kind, comp, f)| item(rec(f, 0, comp, 0, 0), "length", label, kind)).collect()
 }
 
+/// Custom-type class strings whose identifiers (hex-encoded UDT name / field names, type names,
+/// vector dimensions) are replaced by hostile ones: multi-byte alphanumerics with even and odd byte
+/// lengths, non-hex ASCII, empty, odd-length hex, digits of other scripts, overlong numbers.
+fn gen_class_string_identifiers() -> Vec<Item> {
+    const P: &str = "org.apache.cassandra.db.marshal.";
+    let idents = ["\u{4e2d}a", "a\u{e9}b", "6\u{661}6", "\u{e9}", "\u{e9}\u{e9}", "zz", "6", "616", "", "6g", "\u{666}\u{666}", "\u{ff41}\u{ff42}", "61\u{0}", "6 1", "99999999999999999999", "-1", "0x10"];
+    let mut v = Vec::new();
+    for id in idents {
+        let shapes = [
+            format!("{P}UserType(ks,{id},61:{P}Int32Type)"),
+            format!("{P}UserType(ks,6162,{id}:{P}Int32Type)"),
+            format!("{P}UserType(ks,6162,61:{P}Int32Type,{id}:{P}UTF8Type)"),
+            format!("{P}UserType({id},6162,61:{P}Int32Type)"),
+            format!("{P}VectorType({P}Int32Type , {id})"),
+            format!("{P}{id}"),
+            format!("{P}ListType({id})"),
+            format!("{P}FrozenType({P}UserType(ks,{id},{id}:{P}Int32Type))"),
+            format!("{P}MapType({id},{P}Int32Type)"),
+            format!("{id}"),
+        ];
+        for (k, class) in shapes.iter().enumerate() {
+            for prepared in [false, true] {
+                let frame = if prepared { gens::custom_type_prepared_frame(class) } else { gens::custom_type_frame(class) };
+                let mut it = item(rec(frame, 0, 0, 0, 0), "field-mutation", "custom-type-identifier", if prepared { "result-prepared" } else { "result-rows" });
+                it.fine = format!("shape{k}:{}", id.escape_unicode());
+                v.push(it);
+            }
+        }
+    }
+    v
+}
+
 fn gen_canaries() -> Vec<Vec<Item>> {
     let mk = |feat: u8, what: &'static str| {
         let mut it = item(rec(vec![0x84, 0, 0, 0, 2, 0, 0, 0, 0], feat, 0, 0, 0), "canary", what, "canary");
@@ -1365,7 +1397,11 @@ pub fn run(ctx: &Ctx) -> Outcome {
                     gen_field_mutations(c, &f)
                 }
                 Job::Deep(i) => gen_deep(quick).into_iter().skip(i * 8).take(8).collect(),
-                Job::Liars => gen_liars(),
+                Job::Liars => {
+                    let mut v = gen_liars();
+                    v.extend(gen_class_string_identifiers());
+                    v
+                }
                 Job::Random(s, n) => gen_random(&cases, &mut ctx.rng(100 + s), *n),
                 Job::RandWell(s, n) => gen_rand_wellformed(&mut ctx.rng(100_000 + s), *n, *s as usize * 1_000_000),
             };
